@@ -1,5 +1,7 @@
 import ACModel.Spec.Discretizer
 import ACModel.Proofs.GroupedList
+import ACModel.Proofs.Frame
+import ACModel.Proofs.Multi
 /-
   C04 — transform is exactly the mapping described by the fitted values_orders
 
@@ -285,5 +287,226 @@ theorem tableOf_member (g : GL) (hwf : g.WF) (labels : List Val) (i : Nat) (hi :
         rw [this]; exact hvs
       exact h4 _ (hmem j hj'.1) _ (hmem i hi) hne v hvj hv)
   simpa using this
+
+/-! ## A value seen at fit gets the label of its group: per cell, per column, on the whole frame -/
+
+theorem mem_get?_mem {d : Dict} {k : Val} {vs : List Val} (h : Dict.get? d k = some vs) : (k, vs) ∈ d := by
+  induction d with
+  | nil => simp [Dict.get?] at h
+  | cons kv t ih =>
+    obtain ⟨k', vs'⟩ := kv
+    unfold Dict.get? at h
+    split at h
+    · rename_i hk
+      injection h with h
+      subst h; subst hk
+      exact List.mem_cons_self
+    · exact List.mem_cons_of_mem _ (ih h)
+
+theorem mem_values_of_mem_get {g : GL} {k v : Val} (h : v ∈ g.get k) : v ∈ g.values := by
+  unfold GL.get at h
+  cases hg : Dict.get? g.content k with
+  | none => rw [hg] at h; simp at h
+  | some vs =>
+    rw [hg] at h
+    simp only [Option.getD_some] at h
+    unfold GL.values
+    exact Dict.mem_allValues.2 ⟨(k, vs), mem_get?_mem hg, h⟩
+
+/-- **Qualitative cell**: a member of the `i`-th group gets the `i`-th label. -/
+theorem qualCell_member (g : GL) (hwf : g.WF) (labels : List Val) (strNan strDefault : Option String)
+    (i : Nat) (hi : i < g.lst.length) (hl : i < labels.length) (v : Val) (hv : v ∈ g.get g.lst[i]) :
+    qualCell (tableOf g labels) (qualPrepared g strNan strDefault (some v)) = some labels[i] := by
+  have hmem : v ∈ g.values := mem_values_of_mem_get hv
+  simp only [qualPrepared, hmem, not_true_eq_false, decide_false, Bool.false_and, Bool.false_eq_true, if_false, qualCell,
+    tableOf_member g hwf labels i hi hl v hv, Option.getD_some]
+
+/-- **Quantitative cell**: a number whose first leader `≥` it is the `i`-th leader gets the `i`-th
+    label (right-closed intervals: `leader (i-1) < x ≤ leader i`). -/
+theorem quantCell_member (g : GL) (hwf : g.WF) (labels : List Val) (strNan : Option String)
+    (i : Nat) (hi : i < g.lst.length) (hl : i < labels.length) (x : Val)
+    (hx : (g.lst.filter (neNan strNan)).find? (fun l => leVal x l) = some g.lst[i]) :
+    quantCell g (tableOf g labels) strNan (some x) = some labels[i] := by
+  have hself : g.lst[i] ∈ g.get g.lst[i] := by
+    have hwf' := (GL.wf_iff g).1 hwf
+    obtain ⟨_, h2, h3, ⟨_, _⟩, h5⟩ := hwf'
+    have hk : g.lst[i] ∈ Dict.keys g.content := (h3 _).1 (List.getElem_mem hi)
+    obtain ⟨vs, hvs⟩ := Dict.mem_keys.1 hk
+    have : g.get g.lst[i] = vs := by
+      unfold GL.get; rw [(Dict.get?_eq_some h2).2 hvs]; rfl
+    rw [this]
+    exact h5 _ hvs
+  simp only [quantCell, selectPure, hx, tableOf_member g hwf labels i hi hl _ hself, Option.getD_some]
+
+/-- **Qualitative column**: in an accepted column, every row holding a member of the `i`-th group
+    comes out with the `i`-th label. -/
+theorem transformQualCol_member (f : String) (g : GL) (hwf : g.WF) (labels : List Val) (strNan strDefault : Option String)
+    (cin cout : Col) (h : transformQualCol f g (tableOf g labels) strNan strDefault cin = .ok cout)
+    (k i : Nat) (hi : i < g.lst.length) (hl : i < labels.length) (v : Val)
+    (hk : cin[k]? = some (some v)) (hv : v ∈ g.get g.lst[i]) : cout[k]? = some (some labels[i]) := by
+  unfold transformQualCol at h
+  simp only [] at h
+  split at h
+  · cases h
+  · injection h with h
+    subst h
+    simp only [List.getElem?_map, hk, Option.map_some]
+    rw [qualCell_member g hwf labels strNan strDefault i hi hl v hv]
+
+/-- **Quantitative column**: in an accepted column, every row holding a number whose first leader
+    `≥` it is the `i`-th leader comes out with the `i`-th label. -/
+theorem transformQuantCol_member (f : String) (g : GL) (hwf : g.WF) (labels : List Val) (strNan : Option String)
+    (cin cout : Col) (h : transformQuantCol f g (tableOf g labels) strNan cin = .ok cout)
+    (k i : Nat) (hi : i < g.lst.length) (hl : i < labels.length) (x : Val)
+    (hk : cin[k]? = some (some x))
+    (hx : (g.lst.filter (neNan strNan)).find? (fun l => leVal x l) = some g.lst[i]) :
+    cout[k]? = some (some labels[i]) := by
+  unfold transformQuantCol at h
+  simp only [] at h
+  split at h
+  · cases h
+  · split at h
+    · cases h
+    · split at h
+      · cases h
+      · injection h with h
+        subst h
+        simp only [List.getElem?_map, hk, Option.map_some]
+        rw [quantCell_member g hwf labels strNan i hi hl x hx]
+
+/-! ### the whole frame -/
+
+/-- what the last step of `transform` (missing values re-instated where `features_dropna[f]` is
+    False) does to a cell of feature `fd.1`: the cells carrying the label of the missing-value
+    marker become missing again -/
+def nanFixOf (s : Disc) (fd : String × Bool) : Cell → Cell :=
+  if fd.2 then id else
+  match aget? s.lpv fd.1 with
+  | none => id
+  | some t => match nanVal s.strNan with
+    | none => id
+    | some n => match aget? t n with
+      | some lab => fun cell => if cell = some lab then none else cell
+      | none => id
+
+def nanFix (s : Disc) (f : String) : Cell → Cell :=
+  match s.featDropna.find? (fun fd => fd.1 = f) with
+  | some fd => nanFixOf s fd
+  | none => id
+
+theorem nUpd_eq_map (s : Disc) (fd : String × Bool) (c c' : Col) (h : nUpd s fd c = .ok c') :
+    c' = c.map (nanFixOf s fd) := by
+  unfold nUpd at h
+  unfold nanFixOf
+  by_cases hb : fd.2 = true
+  · simp only [hb, if_true] at h ⊢
+    injection h with h; subst h; simp
+  · simp only [hb, Bool.false_eq_true, if_false] at h ⊢
+    cases hl : aget? s.lpv fd.1 with
+    | none => rw [hl] at h; cases h
+    | some t =>
+      rw [hl] at h
+      simp only [] at h ⊢
+      cases hn : nanVal s.strNan with
+      | none => rw [hn] at h; simp only [] at h ⊢; injection h with h; subst h; simp
+      | some n =>
+        rw [hn] at h
+        simp only [] at h ⊢
+        cases hlab : aget? t n with
+        | none => rw [hlab] at h; simp only [] at h ⊢; injection h with h; subst h; simp
+        | some lab => rw [hlab] at h; simp only [] at h ⊢; injection h with h; exact h.symm
+
+/-- after `BaseDiscretizer.fit`, the label table of a fitted feature is `tableOf` of its order and
+    of the labels `labelsOf` computes -/
+theorem fit_lpv (s s' : Disc) (hfit : s.fit = .ok s') (f : String) (hf : f ∈ s.features) (g : GL)
+    (hg : aget? s.orders f = some g) :
+    ∃ labels, labelsOf g (decide (f ∈ s.quant)) s.strNan s.outFloat = .ok labels ∧
+      aget? s'.lpv f = some (tableOf g labels) := by
+  obtain ⟨htab, _⟩ := MultiLemmas.fit_table s s' hfit
+  obtain ⟨tb, ht, hl⟩ := htab f hf
+  unfold MultiLemmas.tableFor at ht
+  rw [hg] at ht
+  simp only [] at ht
+  cases hlab : labelsOf g (decide (f ∈ s.quant)) s.strNan s.outFloat with
+  | error e => rw [hlab] at ht; cases ht
+  | ok labels =>
+    rw [hlab] at ht
+    injection ht with ht
+    exact ⟨labels, rfl, by rw [hl, ← ht]⟩
+
+open FrameLemmas in
+/-- **`transform` is the mapping `values_orders` describes — qualitative features, whole frame.**
+    In every accepted frame, every row whose value belongs to the `i`-th group of a fitted
+    qualitative feature comes out with the `i`-th label (or missing again, when that label is the
+    one of the missing values and `features_dropna[f]` is False). -/
+theorem transform_seen_qual (s : Disc) (hs : s.Shape) (f : String) (hf : f ∈ s.qual) (hnq : f ∉ s.quant)
+    (g : GL) (hg : aget? s.orders f = some g) (hwf : g.WF) (labels : List Val)
+    (ht : aget? s.lpv f = some (tableOf g labels))
+    (x0 x out : Frame) (hc : s.castFeatures x0 = .ok x) (htr : s.transform x0 = .ok out)
+    (cin : Col) (hcin : aget? x f = some cin)
+    (k i : Nat) (hi : i < g.lst.length) (hl : i < labels.length) (v : Val)
+    (hk : cin[k]? = some (some v)) (hv : v ∈ g.get g.lst[i]) :
+    ∃ cout, aget? out f = some cout ∧ cout[k]? = some (nanFix s f (some labels[i])) := by
+  obtain ⟨_, hspec⟩ := transform_spec s hs x0 x out hc htr
+  obtain ⟨cout, hct, hout⟩ := (hspec f).1 cin hcin
+  refine ⟨cout, hout, ?_⟩
+  unfold colTransform at hct
+  simp only [hnq, if_false, Except.bind, hf, if_true] at hct
+  cases hlu : lUpd s f cin with
+  | error e => rw [hlu] at hct; cases hct
+  | ok c2 =>
+    rw [hlu] at hct
+    simp only [] at hct
+    have hc2 : c2[k]? = some (some labels[i]) := by
+      unfold lUpd at hlu
+      simp only [hg, ht] at hlu
+      exact transformQualCol_member f g hwf labels s.strNan s.strDefault cin c2 hlu k i hi hl v hk hv
+    unfold nanFix
+    cases hfd : s.featDropna.find? (fun fd => fd.1 = f) with
+    | none =>
+      rw [hfd] at hct; simp only [] at hct
+      injection hct with hct; subst hct
+      simpa using hc2
+    | some fd =>
+      rw [hfd] at hct; simp only [] at hct
+      rw [nUpd_eq_map s fd c2 cout hct]
+      simp [List.getElem?_map, hc2]
+
+open FrameLemmas in
+/-- **… quantitative features, whole frame.**  Every row holding a number whose first boundary
+    `≥` it is the `i`-th leader comes out with the `i`-th label (right-closed intervals). -/
+theorem transform_seen_quant (s : Disc) (hs : s.Shape) (f : String) (hf : f ∈ s.quant) (hnq : f ∉ s.qual)
+    (g : GL) (hg : aget? s.orders f = some g) (hwf : g.WF) (labels : List Val)
+    (ht : aget? s.lpv f = some (tableOf g labels))
+    (x0 x out : Frame) (hc : s.castFeatures x0 = .ok x) (htr : s.transform x0 = .ok out)
+    (cin : Col) (hcin : aget? x f = some cin)
+    (k i : Nat) (hi : i < g.lst.length) (hl : i < labels.length) (v : Val)
+    (hk : cin[k]? = some (some v))
+    (hv : (g.lst.filter (neNan s.strNan)).find? (fun l => leVal v l) = some g.lst[i]) :
+    ∃ cout, aget? out f = some cout ∧ cout[k]? = some (nanFix s f (some labels[i])) := by
+  obtain ⟨_, hspec⟩ := transform_spec s hs x0 x out hc htr
+  obtain ⟨cout, hct, hout⟩ := (hspec f).1 cin hcin
+  refine ⟨cout, hout, ?_⟩
+  unfold colTransform at hct
+  simp only [hf, if_true, hnq, if_false] at hct
+  cases hqu : qUpd s f cin with
+  | error e => rw [hqu] at hct; cases hct
+  | ok c1 =>
+    rw [hqu] at hct
+    simp only [Except.bind] at hct
+    have hc1 : c1[k]? = some (some labels[i]) := by
+      unfold qUpd at hqu
+      simp only [hg, ht] at hqu
+      exact transformQuantCol_member f g hwf labels s.strNan cin c1 hqu k i hi hl v hk hv
+    unfold nanFix
+    cases hfd : s.featDropna.find? (fun fd => fd.1 = f) with
+    | none =>
+      rw [hfd] at hct; simp only [] at hct
+      injection hct with hct; subst hct
+      simpa using hc1
+    | some fd =>
+      rw [hfd] at hct; simp only [] at hct
+      rw [nUpd_eq_map s fd c1 cout hct]
+      simp [List.getElem?_map, hc1]
 
 end C04
